@@ -17,8 +17,8 @@ SPEC = dict(
         "an acknowledged error reply or a client timeout makes that write outcome-unknown (treated like in-flight); neither occurred in the recorded runs unless the label histogram says so",
         "single replica only: the five points on the incoming-snapshot path (ready.snap_saved, ready.snap_applied, apply.snap_prepared, apply.snap_restoring) and start.cleaned after a snapshot are not reachable and are listed as unreached",
         "rocksdb runs against the sandbox's stock librocksdb 7.8.3 (assertion-enabled build) through the patched binding; an abort inside librocksdb with 'Assertion ... failed' is excluded and counted (excluded_rocksdb_assert_artifact)",
-        "three open known findings narrow the search while open: stall-then-die at ready.before_persist is not generated and a last acknowledged write whose WAL save the hook log cannot prove may be missing (C06-ack-before-wal-single-replica); "
-        "deaths inside the checkpoint copy loop are not generated (C06-crash-in-checkpoint-restore); one barrier write is acknowledged before each dump (C06-ready-before-replayed-batch-committed)",
+        "the five findings this check made on the pinned tree (acknowledgement before the WAL save with one replica, death inside the checkpoint restore, checkpoint cut after the apply loop resumed, ready before the replayed batch was committed, stale temp WAL segment) are repaired in /repo; their exclusions (no stall-then-die at ready.before_persist, no death inside the copy loop, a barrier write before each dump, tolerance for the last acknowledged write) are keyed to known_findings.json and are therefore off",
+        "histories also write HyperLogLog keys (PFADD on dedicated keys; the reference model counts them as exact sets, which a self-check proves right for the element pool; the reply of PFADD is not compared) and draw the namespace option optimized_fsync",
     ],
     quick=[
         dict(name="crash_pebble", pkg="c06_crash", test="TestCrashEnumeration", checks=1, shards=16, timeout=900,
@@ -45,5 +45,5 @@ TEXT = dict(
                "only where a named point (or a stall at one) opens it. No absence claim beyond the runs made.",
     level_note="Trusted: the reference model (lib/model, decided against the implementation by C08), the RESP client, the hook log order (one O_APPEND write per point). "
                "One replica only, so the follower-side snapshot path is out of reach here. Process kills keep the page cache: missing-fsync defects are invisible by construction (C05 covers the WAL's). "
-               "Three known findings are open and narrow the search as stated in the assumptions.",
+               "No known finding of this property is open.",
 )
